@@ -177,12 +177,36 @@ def check_C07():
 
 def check_C08():
     ctx = Ctx("C08"); cov = {}
-    broken = proof_part(ctx, "props/C08.v", ["proofs/C08_cache.v", "proofs/C06_hist.v", "proofs/C06_seq.v", "proofs/C11_table.v", "proofs/C11_lists.v"], cov)
+    broken = proof_part(ctx, "props/C08.v", ["proofs/C08_cache.v", "proofs/C06_hist.v", "proofs/C06_seq.v", "proofs/C11_table.v", "proofs/C11_lists.v",
+                                             "proofs/X_basic.v", "proofs/X_inv.v", "proofs/X_c13.v", "proofs/X_own.v", "proofs/X_chain.v", "proofs/X_c04.v",
+                                             "proofs/X_lin.v", "proofs/X_resize.v", "proofs/X_read.v", "proofs/X_count.v", "XMachine.v"], cov)
     res = cache_seq_part(ctx, "C08", cov, N(ctx, 1200, 20000), broken, dense=True)
     law_part(ctx, "C08", cov, res)
     table_part(ctx, "C08", cov, N(ctx, 60, 600), [])
-    cov["rule"] = "dense cases: Count compared with the physical snapshot taken just before it, with the live entries right after DeleteExpired, with 0 right after Clear, and with the model"
-    return ctx.finish(cov, ["cache level, sequential"])
+    # every schedule: the theorems are about XMachine; it is replayed step by step against mapof.go (the AddInt64 /
+    # LoadInt64 steps on the counter stripes and the final Size included), and XMachineS against map.go
+    def sel(b):
+        why = b[2]
+        return any(x in why for x in ("AddInt64", "LoadInt64", "final Size", "final layout", "final table", "extra steps", "no such step", "crashed", "nat "))
+    xcorr_part(ctx, "C08", cov, _x_sets(ctx, N(ctx, 200, 4000)), sel)
+    xcorrs_part(ctx, "C08", cov, N(ctx, 100, 3000), sel)
+    # on the real code, all containers: at the end of every schedule Size/Count must equal the number of pairs
+    # Range visits and the successful loads (lincheck final-state); resizes frozen at every point, writers parked
+    from . import solo
+    n = N(ctx, 600, 12000)
+    fam = solo.resize_families(ctx.tier, [("Map", None), ("MapOf_int", "const")])
+    sched_part(ctx, "C08", cov, directed=False, extra=[("resize frozen / writer parked / shrink request frozen (directed)", fam)],
+               sets=[("Map", n, ["-prefill", "73", "-clear", "30"]), ("MapOf_int", n, ["-hasher", "const", "-prefill", "125", "-clear", "30"]),
+                     ("MapOf_str", n, ["-prefill", "121"]), ("MapOf_int", n, ["-threads", "4", "-ops", "4", "-sched", "mix", "-keys", "5"]),
+                     ("Cache", n, []), ("CacheOf_int", n, [])])
+    if broken and not ctx.violations:
+        ctx.violation("proof", dict(broken=broken), failing_input=False, what="proof obligation no longer checks")
+    cov["rule"] = ("theorem over every reachable state of XMachine for every schedule: visible entries = counter + additions owed, for every table ever created; "
+                   "Size run from a point with no modifying call in flight returns the number of pairs of the current table. The machine is replayed step by step against the real code (counter steps, final Size, final layout). "
+                   "On the real code, all containers: final Size/Count = pairs visited by Range = successful loads after every schedule, incl. resizes frozen at every point; "
+                   "dense sequential cases: Count compared with the physical snapshot taken just before it, with the live entries right after DeleteExpired, with 0 right after Clear, and with the model")
+    return ctx.finish(cov, ["the counter theorem is proved for the MapOf machine; the Map machine (same protocol) is tied by step correspondence and searched",
+                            "cache level: sequential theorems; interleavings of cache calls are searched (final-state check)"])
 
 def check_C15():
     ctx = Ctx("C15"); cov = {}
@@ -537,7 +561,7 @@ def check_C13():
 
 def check_C16():
     ctx = Ctx("C16"); cov = {}
-    broken = proof_part(ctx, "props/C16.v", ["proofs/X_basic.v", "proofs/X_inv.v", "proofs/X_c13.v", "proofs/X_c16.v", "proofs/X_inst.v", "proofs/X_own.v", "proofs/X_chain.v", "proofs/X_c04.v", "proofs/X_lin.v", "proofs/X_read.v", "XMachine.v"], cov)
+    broken = proof_part(ctx, "props/C16.v", ["proofs/X_basic.v", "proofs/X_inv.v", "proofs/X_c13.v", "proofs/X_c16.v", "proofs/X_inst.v", "proofs/X_own.v", "proofs/X_chain.v", "proofs/X_c04.v", "proofs/X_lin.v", "proofs/X_resize.v", "proofs/X_read.v", "XMachine.v"], cov)
     solo_part(ctx, "C16", cov)
     def sel(b):
         sc, r, why = b
@@ -560,7 +584,7 @@ def check_C16():
 
 def check_C04():
     ctx = Ctx("C04"); cov = {}
-    broken = proof_part(ctx, "props/C04.v", ["proofs/X_basic.v", "proofs/X_inv.v", "proofs/X_c13.v", "proofs/X_inst.v", "proofs/X_own.v", "proofs/X_chain.v", "proofs/X_c04.v", "proofs/X_lin.v", "proofs/X_resize.v", "proofs/C11_table.v", "proofs/C11_lists.v", "XMachine.v", "TableModel.v"], cov)
+    broken = proof_part(ctx, "props/C04.v", ["proofs/X_basic.v", "proofs/X_inv.v", "proofs/X_c13.v", "proofs/X_inst.v", "proofs/X_own.v", "proofs/X_chain.v", "proofs/X_c04.v", "proofs/X_lin.v", "proofs/X_resize.v", "proofs/X_swar.v", "proofs/C11_table.v", "proofs/C11_lists.v", "XMachine.v", "XExec.v", "TableModel.v"], cov)
     n = N(ctx, 1500, 25000)
     from . import solo
     fam = solo.resize_families(ctx.tier, [("MapOf_int", "default"), ("MapOf_int", "const"), ("MapOf_str", "default")])
